@@ -163,3 +163,8 @@ impl QueuedHashes {
     #[verifier::external_body]
     pub fn contains_namespace(&self, namespace: &NamespaceId) -> bool { unimplemented!() }
 }
+
+/// std blanket `impl<T: Clone> ToOwned for T`: `to_owned` is `clone` (A-std)
+pub assume_specification<T> [<T as std::borrow::ToOwned>::to_owned] (x: &T) -> (r: T)
+    where T: std::clone::Clone,
+    ensures call_ensures(T::clone, (x,), r);
